@@ -28,14 +28,15 @@ type c06Case struct {
 	Frames  []c06Frame `json:"frames"`
 	Choices []int      `json:"choices,omitempty"` // E3 choice vector of the scripted reader
 	Uniform int        `json:"uniform_chunk,omitempty"`
+	Cut     int        `json:"cut_at,omitempty"` // one forced short read ending exactly at this stream offset
 }
 
 func init() {
 	mc.Register(&mc.Property{
 		ID:    "C06",
 		Level: "model_checking",
-		Rule: "E3 stateless deviation-bounded DFS over a scripted io.Reader: (frames) every frame of the alphabet {generated protobuf message, its versioned wrapper, legacy Marshal/Unmarshal message, its versioned variant} × payload lengths {0,1,2,31,32,33,127,128,129,5000, 2^20+1 (+65535, 65536, 2^20, 2^21+5 thorough)} × versions (every length 0..16 and an interior NUL): Marshal's count = bytes written = Size = HeaderSize + encoding length, wire bytes = independently built header + encoding, ReadHeader = (version, 32, length) consuming 32 bytes; " +
-			"(histories) every stream of 1..3 frames over a 6-frame sub-alphabet, read back by k+1 Unmarshal calls under every reader chunking with ≤B deviations from 'deliver as much as asked' (deviations: return only j bytes for any j, deliver the last bytes together with io.EOF, one (0,nil) read) plus every uniform chunk size 1..len; each call must return the next message, its version, n = frame length = bytes actually pulled from the reader, and the extra call (0, cause io.EOF). " +
+		Rule: "E3 stateless deviation-bounded DFS over a scripted io.Reader: (frames) every frame of the alphabet {generated protobuf message, its versioned wrapper, legacy Marshal/Unmarshal message, its versioned variant} × payload lengths {0,1,2,31,32,33,127,128,129,5000, 2^20+1 (+65535, 65536, 2^20, 2^21+5 thorough)} × versions (every length 0..16, an interior NUL, a leading NUL, trailing spaces): Marshal's count = bytes written = Size = HeaderSize + encoding length, wire bytes = independently built header + encoding, ReadHeader = (version, 32, length) consuming 32 bytes; " +
+			"(histories) every stream of 1..3 frames over a 6-frame sub-alphabet, read back by k+1 Unmarshal calls under every reader chunking with ≤B deviations from 'deliver as much as asked' (deviations: return only j bytes for any j, deliver the last bytes together with io.EOF, one (0,nil) read) plus every uniform chunk size 1..len; three streams in which a frame with a body above 1 MiB is followed by further frames, under whole/uniform chunkings and one forced short read around every frame boundary, body start and power of two; each call must return the next message, its version, n = frame length = bytes actually pulled from the reader, and the extra call (0, cause io.EOF). " +
 			"states = choice-tree nodes (= executions), transitions = reader answers given. Non-trivial: executions with at least one deviation or a multi-frame stream.",
 		Assumptions: []string{
 			"readers respect the io.Reader contract apart from the listed deviations; at most B simultaneous deviations",
@@ -234,6 +235,7 @@ type c06Reader struct {
 	pos     int
 	env     *mc.Env
 	uniform int
+	cut     int // > 0: the read that would cross this offset stops exactly there
 	reads   int64
 }
 
@@ -249,6 +251,14 @@ func (r *c06Reader) Read(p []byte) (int, error) {
 	max := len(p)
 	if rem < max {
 		max = rem
+	}
+	if r.cut > r.pos && r.cut < r.pos+max {
+		max = r.cut - r.pos
+	}
+	if r.env == nil && r.uniform == 0 {
+		copy(p, r.data[r.pos:r.pos+max])
+		r.pos += max
+		return max, nil
 	}
 	if r.uniform > 0 {
 		n := max
@@ -287,6 +297,10 @@ func (r *c06Reader) Read(p []byte) (int, error) {
 
 // c06Stream runs one execution: k+1 Unmarshal calls on the concatenated frames.
 func c06Stream(frames []c06Frame, env *mc.Env, uniform int) (got, want string, reads int64) {
+	return c06StreamCut(frames, env, uniform, 0)
+}
+
+func c06StreamCut(frames []c06Frame, env *mc.Env, uniform, cut int) (got, want string, reads int64) {
 	defer func() {
 		if e := recover(); e != nil {
 			if s, ok := e.(string); ok && len(s) > 3 && s[:3] == "mc:" {
@@ -299,7 +313,7 @@ func c06Stream(frames []c06Frame, env *mc.Env, uniform int) (got, want string, r
 	for _, f := range frames {
 		data = append(data, c06Wire(f)...)
 	}
-	r := &c06Reader{data: data, env: env, uniform: uniform}
+	r := &c06Reader{data: data, env: env, uniform: uniform, cut: cut}
 	for _, f := range frames {
 		wl := len(c06Wire(f))
 		want += fmt.Sprintf("[n=%d ver=%q err=nil payload=%s pulled=%d]", wl, c06Ver(f), digest(c06Payload(f.Payload)), wl)
@@ -321,7 +335,7 @@ func c06Versions() []string {
 	for l := 0; l <= 16; l++ {
 		out = append(out, base[:l])
 	}
-	return append(out, "1.\x000")
+	return append(out, "1.\x000", " ", "1.0 ", "\x00x")
 }
 
 func c06Frames(thorough bool) []c06Frame {
@@ -485,6 +499,53 @@ func c06Run(c *mc.Ctx) {
 			c.ForceSample(c06Case{Frames: fr, Choices: []int{0, 0, 3, 0, 0}})
 		}
 	})
+	// streams in which a frame with a body above 1 MiB is FOLLOWED by other frames: whole, uniform
+	// chunkings, and one forced short read around every frame boundary and power of two
+	bigStreams := [][]c06Frame{
+		{{Kind: "legacy", Payload: 1<<20 + 1}, {Kind: "pb", Payload: 3}},
+		{{Kind: "legacyv", Payload: 5, Version: "3.1"}, {Kind: "pb", Payload: 1<<20 + 5}, {Kind: "legacy", Payload: 33}},
+		{{Kind: "pbv", Payload: 2<<20 + 7, Version: "0123456789abcdef"}, {Kind: "legacyv", Payload: 1<<20 + 1, Version: ""}, {Kind: "pb", Payload: 0}},
+	}
+	type bigJob struct {
+		si, uni, cut int
+	}
+	var bjs []bigJob
+	for si, fr := range bigStreams {
+		for _, u := range []int{0, 1, 7, 4096, 1 << 16, 1 << 20, 1000003} {
+			bjs = append(bjs, bigJob{si, u, 0})
+		}
+		seen := map[int]bool{}
+		off := 0
+		total := 0
+		for _, f := range fr {
+			total += len(c06Wire(f))
+		}
+		addCut := func(k int) {
+			if k > 0 && k < total && !seen[k] {
+				seen[k] = true
+				bjs = append(bjs, bigJob{si, 0, k}, bigJob{si, 4096, k})
+			}
+		}
+		for _, f := range fr {
+			for _, base := range []int{off, off + 32} { // frame start, body start
+				for _, d := range []int{-65, -64, -63, -2, -1, 1, 2, 31, 32, 33, 63, 64, 65, 511, 512, 513, 4095, 4096, 4097, 32767, 32768, 32769, 65535, 65536, 65537, 1<<20 - 1, 1 << 20, 1<<20 + 1} {
+					addCut(base + d)
+				}
+			}
+			off += len(c06Wire(f))
+		}
+	}
+	c.Par(len(bjs), func(i int) {
+		j := bjs[i]
+		g, w, rd := c06StreamCut(bigStreams[j.si], nil, j.uni, j.cut)
+		if g != w {
+			c.Fail(5<<40|int64(i), "stream", "stream/large", c06Case{Frames: bigStreams[j.si], Uniform: j.uni, Cut: j.cut}, g, w)
+		}
+		c.Count(1, 1)
+		c.Add("states", 1)
+		c.Add("transitions", rd)
+		c.Add("large_stream_executions", 1)
+	})
 	c.Add("traces_validated_against_impl", c.Int("states"))
 	// determinism: one recorded execution replayed twice gives identical observations
 	{
@@ -504,10 +565,10 @@ func c06Judge(kind string, cs c06Case) (got, want string) {
 		return c06MarshalOne(cs.Frames[0])
 	case "stream":
 		var env *mc.Env
-		if cs.Uniform == 0 {
+		if cs.Uniform == 0 && cs.Cut == 0 {
 			env = mc.NewEnv(cs.Choices)
 		}
-		g, w, _ := c06Stream(cs.Frames, env, cs.Uniform)
+		g, w, _ := c06StreamCut(cs.Frames, env, cs.Uniform, cs.Cut)
 		return g, w
 	}
 	return "unknown kind " + kind, ""
